@@ -331,3 +331,26 @@ func tighten(b bound) bound {
 	}
 	return b
 }
+
+// NewFnViewBound is NewFnView for a helper that has exactly one static call site in the repository: its parameters stand
+// for the caller's argument terms (recursively), so that what the helper computes and tests reads as if it were written
+// in the caller (a stage function, arithmetic moved into a small package).
+func NewFnViewBound(p *Program, fn *ssa.Function, root *ssa.Function, depth int) *FnView {
+	v := NewFnView(p, fn)
+	if depth > 3 || fn.Parent() != nil || fn == root {
+		return v // (the anchored function keeps its own parameter names: the rules are written in terms of them)
+	}
+	sites, ok := staticCallSites(p, fn)
+	if !ok || len(sites) != 1 {
+		return v
+	}
+	call, isCall := sites[0].(*ssa.Call)
+	if !isCall || !p.OwnedFunc(call.Parent()) || len(call.Call.Args) != len(fn.Params) {
+		return v
+	}
+	cv := NewFnViewBound(p, call.Parent(), root, depth+1)
+	for i, prm := range fn.Params {
+		v.fr.vals[prm] = cv.Term(call.Call.Args[i])
+	}
+	return v
+}
